@@ -3,10 +3,11 @@
 set -u
 cd "$(dirname "$0")"
 export CARGO_NET_OFFLINE=true
+export CARGO_TARGET_DIR="$(pwd)/target"
 mkdir -p work/bin work/log evidence replays
 cd harness
 cargo build -q -p dv_gen || exit 1
-../target/debug/dv_gen "${VERIF_SEED:-1}" generated/src/types.rs || exit 1
+"$CARGO_TARGET_DIR/debug/dv_gen" "${VERIF_SEED:-1}" generated/src/types.rs || exit 1
 cargo build -q -p dv_check || exit 1
 cargo build -q -p dv_http || exit 1
 echo "setup ok"
